@@ -209,10 +209,10 @@ class SuperProxy:
 
 
 class Env:
-    __slots__ = ("vars", "parent")
+    __slots__ = ("vars", "parent", "qual")
 
     def __init__(self, parent=None):
-        self.vars, self.parent = {}, parent
+        self.vars, self.parent, self.qual = {}, parent, ""
 
     def lookup(self, name):
         e = self
